@@ -104,6 +104,9 @@ func c12Decoy(r *rand.Rand) string {
 		"<base href=\"/\">",
 		"<meta name=\"description\" content=\"How to declare the charset of a page\">",
 		"<meta name=\"keywords\" content=\"charset; charset , charset\">",
+		"<meta http-equiv=\"Content-Type\" content=\"text/html\">",
+		"<meta http-equiv=\"Content-Type\" content=\"text/html\"><meta name=\"description\" content=\"about charset=fake-after-pragma\">",
+		"<meta http-equiv=\"X-UA-Compatible\" content=\"IE=edge\">",
 	}
 	return d[r.Intn(len(d))]
 }
@@ -131,10 +134,14 @@ func c12HTML(r *rand.Rand, long bool) c12Doc {
 	}
 	if long {
 		// one token of more than 4 KiB before the declaration
+		rep := 1
+		if r.Intn(6) == 0 {
+			rep = 15 // one token of more than 64 KiB
+		}
 		if r.Intn(2) == 0 {
-			sb.WriteString("<!-- " + strings.Repeat("long comment ", 400) + "-->")
+			sb.WriteString("<!-- " + strings.Repeat("long comment ", 400*rep) + "-->")
 		} else {
-			sb.WriteString("<script>" + strings.Repeat("var x = 1; ", 500) + "</script>")
+			sb.WriteString("<script>" + strings.Repeat("var x = 1; ", 500*rep) + "</script>")
 		}
 		d.prolog += "+long-token"
 	}
@@ -405,7 +412,7 @@ func init() {
 	fw.Register(&fw.Prop{
 		ID:    "C12",
 		Level: "exploration",
-		Rule: "documents = HTML starting with one of 13 openings (doctype/html/head/title/script/style/…; optional UTF-8 BOM and leading whitespace), 0-3 decoys (comments, script/style/title/textarea containing fake metas, name=/refresh/og metas with charset= text), optionally one >4 KiB comment/script token, then ONE declaration in one of 9 syntaxes (charset unquoted / double / single quoted / among other attributes; http-equiv pragma with content before or after, spaces around 'charset =', quotes inside content, unquoted attribute values; random letter case of tag and attribute names; spaces around '='; '>' or '/>'), and XML 1.0 prologues ('<?xml ' + version + encoding with either quote, standalone, varied whitespace). Labels: every token character, 35 real IANA labels, random and very long labels, utf-16*. Limits: 0, len+1, exactly the end of the declaration, len, 3072, random in between. " +
+		Rule: "documents = HTML starting with one of 13 openings (doctype/html/head/title/script/style/…; optional UTF-8 BOM and leading whitespace), 0-3 decoys (comments, script/style/title/textarea containing fake metas, name=/refresh/og metas with charset= text), optionally one comment/script token of > 4 KiB or > 64 KiB, then ONE declaration in one of 9 syntaxes (charset unquoted / double / single quoted / among other attributes; http-equiv pragma with content before or after, spaces around 'charset =', quotes inside content, unquoted attribute values; random letter case of tag and attribute names; spaces around '='; '>' or '/>'), and XML 1.0 prologues ('<?xml ' + version + encoding with either quote, standalone, varied whitespace). Labels: every token character, 35 real IANA labels, random and very long labels, utf-16*. Limits: 0, len+1, exactly the end of the declaration, len, 3072, random in between. " +
 			"non-trivial = a result of the expected type whose declaration was judged; distinct = distinct (type, syntax, label class, whole/cut/cut-at-declaration-end, number of decoys).",
 		Assumptions: []string{
 			"labels never contain '&' (the HTML tokenizer decodes character references, which would make 'the declared label' ambiguous), quotes or backticks",
